@@ -125,13 +125,25 @@ class RefSet:
         return None
 
 
+class _LazySets(dict):
+    """set index -> RefSet, created on first use (huge index widths stay cheap)."""
+
+    def __init__(self, ways, strat):
+        super().__init__()
+        self.ways, self.strat = ways, strat
+
+    def __missing__(self, k):
+        v = self[k] = RefSet(self.ways, self.strat)
+        return v
+
+
 class RefCache:
     """Set-associative cache: 'wb' = write-back + write-allocate, 'wt' = write-through +
     no-write-allocate, 'ro' = read-only (instruction cache)."""
 
     def __init__(self, kind, ib, bb, ways, strat):
         self.kind, self.ib, self.bb, self.ways, self.strat = kind, ib, bb, ways, strat
-        self.sets = [RefSet(ways, strat) for _ in range(2**ib)]
+        self.sets = _LazySets(ways, strat)
         self.hits = 0
         self.acc = 0
         self.last = False
@@ -159,11 +171,12 @@ class RefCache:
         return hit, victim, idx
 
     def clear(self):
-        self.sets = [RefSet(self.ways, self.strat) for _ in range(2**self.ib)]
+        self.sets = _LazySets(self.ways, self.strat)
 
     def resync(self, impl_sets):
-        """impl_sets: list of (list of (valid, tag), strategy_repr) read white-box
+        """impl_sets: {set index: (list of (valid, tag), strategy_repr)} read white-box
         from the implementation."""
-        for s, (blocks, rep) in zip(self.sets, impl_sets):
+        for k, (blocks, rep) in impl_sets.items():
+            s = self.sets[k]
             s.tags = [t if v else None for v, t in blocks]
             s.policy.load_repr(rep)
